@@ -84,7 +84,8 @@ def build_harness(w):
         open(os.path.join(hdir, "go.mod"), "w").write(gm)
     shutil.copy(os.path.join(REPO, "go.sum"), os.path.join(hdir, "go.sum"))
     t = time.time()
-    p = subprocess.run(["go", "test", "-c", "-tags", "verif", "-o", out, "."], cwd=hdir, env=env,
+    cover = ["-cover", "-coverpkg=github.com/teleport-network/teleport/..."] if os.environ.get("VERIF_COVER_DIR") else []
+    p = subprocess.run(["go", "test", "-c", "-tags", "verif"] + cover + ["-o", out, "."], cwd=hdir, env=env,
                        stdout=subprocess.PIPE, stderr=subprocess.STDOUT, text=True)
     if p.returncode != 0:
         log(p.stdout[-4000:])
@@ -103,7 +104,11 @@ def run_driver(w, binary, driver, infile, outfile, timeout=3600, extra_env=None,
         env.update(extra_env)
     t = time.time()
     try:
-        p = subprocess.run([binary, "-test.run", "^TestDriver$", "-test.timeout", "0"], cwd=cwd or w.dir, env=env,
+        cover = []
+        if os.environ.get("VERIF_COVER_DIR"):   # bin/coverage: statement coverage of teleport reached by the replayed behaviours
+            os.makedirs(os.environ["VERIF_COVER_DIR"], exist_ok=True)
+            cover = ["-test.coverprofile", os.path.join(os.environ["VERIF_COVER_DIR"], "%s.%d.%d.out" % (driver, os.getpid(), int(time.time() * 1000) % 10 ** 9))]
+        p = subprocess.run([binary, "-test.run", "^TestDriver$", "-test.timeout", "0"] + cover, cwd=cwd or w.dir, env=env,
                            stdout=subprocess.PIPE, stderr=subprocess.STDOUT, text=True, timeout=timeout)
     except subprocess.TimeoutExpired:
         raise Inconclusive("driver %s timed out" % driver)
